@@ -707,7 +707,8 @@ def from_preset(chk):
             chk.add_from_path(f"{tag}/path{oi}", o, func=fq, meta={"replay": rep})
             okl = len(c["load"]) == 1 and isinstance(c["load"][0], I.Opaque) and c["load"][0].data.get("name") == f"prune_grid_{preset}.npz" \
                 and c["load"][0].data.get("pkg") == "grid.data.prune_grid"
-            chk.add(f"{tag}/post/reads-the-table-of-this-preset", [], z3.BoolVal(bool(okl)), func=fq, meta={"replay": rep})
+            # which file is opened, and how often, is a proof step (the table behind np.load is the contract's stand-in for the shipped data)
+            chk.add(f"{tag}/callee-pre/reads-the-table-of-this-preset", [], z3.BoolVal(bool(okl)), kind="callee-pre", func=fq, meta={"replay": rep})
             ci = c["init"]
             oki = len(ci) == 1 and ci[0][0] and ci[0][0][0] is rg and ci[0][1].get("method") == "maxdet" and T.is_sym(ci[0][1].get("rotate")) and ci[0][1]["rotate"].eq(rot) \
                 and isinstance(ci[0][1].get("center"), I.Arr)
